@@ -298,8 +298,48 @@ func casesText(c *caseCtx) {
 			c.emit("parsesq %s => %s", codes(t), safeParseSquare(t))
 		}
 	}
-	// Engine.Move: accepted iff the string denotes a legal move; rejected input leaves the state unchanged
 	ctx := context.Background()
+	// whole games given as text: a set-up FEN with a half-move clock of its own, then move strings that
+	// shuffle officers out and back twice (third occurrence of the start position with a clock that is
+	// longer than the recorded history): every legal string must be accepted, none may crash
+	shuffleStarts := []string{
+		"rnbqkbnr/pppppppp/8/8/8/8/PPPPPPPP/RNBQKBNR w KQkq - %d 30",
+		"r3k2r/pppq1ppp/2npbn2/2b1p3/2B1P3/2NPBN2/PPPQ1PPP/R3K2R w KQkq - %d 12",
+		"4k3/8/8/8/8/8/8/R3K2R b KQ - %d 40",
+		"3k4/8/3K4/8/8/8/8/R7 w - - %d 60",
+	}
+	for _, tmpl := range shuffleStarts {
+		for _, clock := range []int{0, 1, 2, 3, 10, 41, 90, 96} {
+			start := fmt.Sprintf(tmpl, clock)
+			e := engine.New(ctx, "t", "t", search.AlphaBeta{Eval: search.Leaf{Eval: eval.Material{}}})
+			if err := e.Reset(ctx, start); err != nil {
+				continue
+			}
+			pos, turn, _, _, _ := fen.Decode(start)
+			cyc, ok := shuffleCycle(c, state{pos, turn})
+			if !ok {
+				continue
+			}
+			var ops, obs []string
+			obs = append(obs, codes(e.Position()))
+			for k := 0; k < 12; k++ {
+				str := cyc[k%4]
+				ops = append(ops, "mv:"+codes(str))
+				err, crashed := safeEngineMove(ctx, e, str)
+				if crashed {
+					obs = append(obs, "CRASH")
+					break
+				}
+				if err != nil {
+					obs = append(obs, "REJ")
+					break
+				}
+				obs = append(obs, codes(e.Position()))
+			}
+			c.emit("enggame %s :: %s => %s", codes(start), strings.Join(ops, " "), strings.Join(obs, " | "))
+		}
+	}
+	// Engine.Move: accepted iff the string denotes a legal move; rejected input leaves the state unchanged
 	for g := 0; g < c.scale(150, 3000); g++ {
 		start := randomFEN(c)
 		e := engine.New(ctx, "t", "t", search.AlphaBeta{Eval: search.Leaf{Eval: eval.Material{}}})
